@@ -4,6 +4,11 @@ declare_id!("whirLbMiicVdio4qvUfM5KAg6Ct8VwpYzGff3uctyCc");
 
 mod entrypoint;
 
+// verification hook (Kani only; see /verif/MANIFEST.json hooks)
+#[cfg(kani)]
+#[path = "/verif/kani/crate_harness.rs"]
+mod verif_kani;
+
 #[doc(hidden)]
 pub mod pinocchio;
 
